@@ -277,6 +277,16 @@ Proof.
   destruct (lists_to_strings ll); cbn [of_opt]; [right; eauto|left; reflexivity].
 Qed.
 
+Lemma plsl_nonempty (s : bytes) (l : list (list bytes)) :
+  parse_list_of_string_lists s = Ok l -> l <> [].
+Proof.
+  unfold parse_list_of_string_lists. intros H. apply bindR_ok in H. destruct H as [ll [P H]].
+  apply of_opt_ok in H. apply WP.Proofs.SHRoundtrip.parse_lol_valid in P. destruct P as [Hne _].
+  destruct ll as [|x t]; [contradiction|]. cbn [lists_to_strings] in H.
+  destruct (items_to_strings x); [|discriminate]. destruct (lists_to_strings t); [|discriminate].
+  inversion H. discriminate.
+Qed.
+
 Section Order.
   Context {A : Type}.
   Notation ventry := (@ventry A).
@@ -676,6 +686,35 @@ Section Order.
         + destruct (IH _ eq_refl _ _ Hin) as [vv' [vk' H']]. exists vv', vk'. right. exact H'. }
     apply Forall_forall. intros x Hx. apply In_nth_error in Hx. destruct Hx as [j Hj].
     rewrite <- (Nat2N.id j) in Hj. apply Nth in Hj. eapply Mem. exact Hj.
+  Qed.
+  (* every entry carries at least one Variant-Key, so every entry shows up *)
+  Lemma placements_cover (v : variants) (es : list ventry) : forall pl,
+    placements v es = Some pl ->
+    forall vv vk x, In (vv, vk, x) es -> exists i, In (i, x) pl.
+  Proof.
+    induction es as [|[[vv0 vk0] x0] t IH]; intros pl Pl vv vk x Hin; [contradiction|].
+    cbn [placements] in Pl.
+    destruct (parse_list_of_string_lists vk0) as [vks| | |] eqn:Pk; try discriminate.
+    destruct (key_indices v vks) as [idxs|] eqn:K; [|discriminate].
+    destruct (placements v t) as [r|] eqn:Pt; [|discriminate]. inversion Pl; subst pl.
+    destruct Hin as [Hin|Hin].
+    - inversion Hin; subst. apply plsl_nonempty in Pk.
+      destruct vks as [|vk1 vks']; [contradiction|]. cbn [key_indices] in K.
+      destruct (index_in_possible_keys v vk1) as [i|]; [|discriminate].
+      destruct (key_indices v vks'); [|discriminate]. inversion K; subst.
+      exists i. cbn [map app]. left. reflexivity.
+    - destruct (IH _ eq_refl _ _ _ Hin) as [i Hi]. exists i. apply in_or_app. right. exact Hi.
+  Qed.
+
+  Corollary entries_order_all_placed (es : list ventry) (l : list A) :
+    entries_in_possible_key_order es = Ok l ->
+    forall vv vk x, In (vv, vk, x) es -> In x l.
+  Proof.
+    intros H vv vk x Hin.
+    destruct (entries_order_spec _ _ H) as [v0 [vk0 [x0 [t [v [n [_ [_ [_ [_ [_ C]]]]]]]]]]].
+    destruct C as [pl [Pl [_ [_ [_ Nth]]]]].
+    destruct (placements_cover _ _ _ Pl _ _ _ Hin) as [i Hi].
+    apply Nth in Hi. eapply nth_error_In. exact Hi.
   Qed.
 End Order.
 
